@@ -128,6 +128,12 @@ fn rev_oracle(c: &Case) -> Verdict {
     // constructors
     let built = if s == S_ET { lib!(Epoch::from_et_duration(mk(c.off))) } else { lib!(Epoch::from_tdb_duration(mk(c.off))) };
     ensure!(built.time_scale == SCALES[s] && count(built.duration) == c.off, "from_et/tdb_duration wrong");
+    // the to_*_duration accessors of an ET/TDB epoch are its conversion into that scale
+    for u in UNIFORM {
+        let acc = lib!(crate::props::c05::accessor(&e, u));
+        let conv = lib!(e.to_time_scale(SCALES[u]));
+        ensure!(acc.to_parts() == conv.duration.to_parts(), "{} epoch: to_{}_duration accessor {:?} differs from to_time_scale {:?}", SCALE_NAMES[s], SCALE_NAMES[u].to_lowercase(), acc.to_parts(), conv.duration.to_parts());
+    }
     // float-second constructors: x seconds after J2000 of that scale, truncated to ns (C18's semantics)
     let x = ns_to_s(c.off);
     let fe = if s == S_ET { lib!(Epoch::from_et_seconds(x)) } else { lib!(Epoch::from_tdb_seconds(x)) };
